@@ -19,6 +19,9 @@ functor lookup, printed form — with a never-used twin and with a value rebuilt
 calls from its own fields; `hash(x)` must not change between calls on an unmutated object.  The
 derived values' printed forms and `==` go to the model too (`dgrepr`, `dgeqv`, `dgboxrepr`:
 Model/Downgrade.lean).  Calling conventions: list- against tuple-valued constructor arguments.
+
+The PRO type classes (harness/c03pro.py, Model/ReprPRO.lean): PRO types through their construction
+histories, boxes / diagrams / sums over PRO types, and PRO types as keys of a functor's mapping.
 """
 import itertools
 import random
@@ -29,6 +32,7 @@ from common import Driver, Report, lean_obligations, err_class, ser_ty, ser_box,
 from core import Family, Gen, tok_expr, tok_ty, tok_box, ty_l, ty_r
 from sums import SumGen, run_sum, tok_sexpr
 import c03hist
+import c03pro
 
 PROP = "C03"
 DOT = "·"
@@ -389,7 +393,10 @@ def run(tier, seed, replay=None):
                 "compositions with downgrade) are compared with a never-used twin built through another "
                 "construction history and with a rebuild from the derived value's own fields, and one "
                 "of 5 in-place mutations of a box's data is compared with a fresh box carrying the new "
-                "payload; non-trivial = value with >= 2 boxes / objects / terms")
+                "payload; non-trivial = value with >= 2 boxes / objects / terms; PRO streams: one PRO type "
+                "(monoidal.PRO / rigid.PRO) through 15-19 construction histories plus 2-6 near misses, the diagram "
+                "pools evaluated over PRO types, functors whose object mapping is keyed by a PRO(1) built through "
+                "one of 9 histories (non-trivial = PRO type of >= 2 wires / diagram of >= 2 boxes)")
     rep.partial = [
         "`repr` determines the value up to ==: proved on the printed STRING (repr_inj, val_/sum_/"
         "reprBox_/reprTy_inj) under the explicit token-hygiene hypothesis TokensSafe (name and data "
@@ -406,6 +413,10 @@ def run(tier, seed, replay=None):
         "mixing monoidal and rigid classes (upgrade after downgrade) are oracle-only",
         "the printed form of a DOWNGRADED value does not determine it (downgraded_repr_not_inj): "
         "repr_inj is not claimed for them; finding F43b",
+        "PRO types: pro_eq_iff, reprPRO_congr / pro_hash_congr, reprPRO_inj, pro_tensor, pro_slice are about the "
+        "VALUES; that hash() is defined on the classes at all (a class that overrides __eq__ without __hash__ is "
+        "unhashable) is checked by the oracle on every PRO value it builds; printed forms and functor images of "
+        "PRO-TYPED boxes / diagrams / sums are oracle-only (the model prints types as Ty), their == goes to the model",
     ]
     rep.assumptions = [
         "names are identifier-like strings or ints, data is None / numbers / lists and dicts of "
@@ -631,6 +642,10 @@ def run(tier, seed, replay=None):
         # ---------------------------------------------------------------- values with a past
         c03hist.run_history(rep, random.Random(rng.getrandbits(64)), oracle.ns, ask, Gen3, histories, quick)
         c03hist.run_containers(rep, random.Random(rng.getrandbits(64)), oracle.ns, Gen3, quick)
+
+        # ---------------------------------------------------------------- the PRO type classes
+        c03pro.run_pro(rep, random.Random(rng.getrandbits(64)), oracle, ask, quick, Gen3, histories, mutants,
+                       key_diagram, key_sum)
 
         # ---------------------------------------------------------------- model answers
         answers = drv.ask_many(lines)
